@@ -4,7 +4,7 @@
 // paths, at most once per notification, never after removal, and without
 // disturbing other subscribers registered at the same paths.
 //
-// Three generated parts share this file's vocabulary:
+// Four generated parts share this file's vocabulary:
 //
 //	exhaustive  all (subscription path, update path) pairs of length 0-4 over
 //	            {a,b,*}, all two-registration triples of length 0-2, and the
@@ -13,6 +13,14 @@
 //	            (seq.go)
 //	server      the real subscribe.Server (Subscribe / Update) with in-memory
 //	            streams in a synctest bubble (server.go)
+//	inflight    registrations removed / added WHILE Update / UpdateNotification
+//	            calls are in flight: calls paused inside one of their callbacks
+//	            (the harness owns the callbacks) and free-running rounds on the
+//	            real scheduler, judged from sequence stamps (inflight.go)
+//
+// The generators of the random, server and inflight parts are in gen_test.go /
+// inflight_test.go; derive.go holds the path derivations (twins under a
+// joiner, re-structuring into keyed elements) they use.
 package matchprop
 
 import (
